@@ -296,3 +296,36 @@ theorem slots_nil_of_inuse_zero (t : Table) (ha : t.inuse = sumSize t.slots) (hz
 
 end Table
 end Olric
+
+
+namespace Olric
+namespace Table
+
+/-- records lie one after the other, without overlap, below the write offset -/
+def Layout (t : Table) : Prop :=
+  t.slots.Pairwise (fun a b => a.off + a.r.size ≤ b.off) ∧ ∀ s ∈ t.slots, s.off + s.r.size ≤ t.off
+
+theorem layout_deleteD (t : Table) (h : Nat) (hl : t.Layout) : (t.deleteD h).Layout := by
+  rw [Layout, deleteD_slots, deleteD_off]
+  exact ⟨hl.1.sublist List.filter_sublist, fun s hs => hl.2 s (List.mem_filter.mp hs).1⟩
+
+theorem layout_append (t t' : Table) (h : Nat) (s : Slot) (hl : t.Layout)
+    (hs : t'.slots = t.slots.filter (fun x => x.hk != h) ++ [s]) (ho : s.off = t.off)
+    (hoff : t'.off = t.off + s.r.size) : t'.Layout := by
+  rw [Layout, hs, hoff]
+  refine ⟨?_, ?_⟩
+  · rw [List.pairwise_append]
+    refine ⟨hl.1.sublist List.filter_sublist, by simp, ?_⟩
+    intro a ha b hb
+    simp only [List.mem_singleton] at hb
+    subst hb
+    have := hl.2 a (List.mem_filter.mp ha).1
+    omega
+  · intro x hx
+    rw [List.mem_append] at hx
+    rcases hx with hx | hx
+    · have := hl.2 x (List.mem_filter.mp hx).1; omega
+    · simp only [List.mem_singleton] at hx; subst hx; omega
+
+end Table
+end Olric
